@@ -465,6 +465,12 @@ func (c *Conn) loadSession(hello *clientHelloMsg) (
 			return nil, nil, nil, nil
 		}
 		// [UTLS SECTION START]
+		if !c.config.InsecureSkipTimeVerify && c.config.time().Before(session.peerCertificates[0].NotBefore) {
+			// Not valid yet at the configured time (the session was stored by a
+			// connection that skipped the time check, or under another clock):
+			// a fresh handshake would reject this certificate, so do not resume.
+			return nil, nil, nil, nil
+		}
 		var dnsName string
 		if len(c.config.InsecureServerNameToVerify) == 0 {
 			dnsName = c.config.ServerName
